@@ -279,7 +279,16 @@ pub fn run(o: &Opts) -> Report {
                 }
                 Outcome::Err => {
                     rep.tally(if doc { "outcome:err_but_documented" } else { "outcome:err" });
-                    if doc && want("C05") && !is_enum {
+                    let strict_doc = doc && {
+                        crate::fmt::STRICT_ND.store(true, std::sync::atomic::Ordering::Relaxed);
+                        let d = documented(&all, sp, &c);
+                        crate::fmt::STRICT_ND.store(false, std::sync::atomic::Ordering::Relaxed);
+                        d
+                    };
+                    if doc && !strict_doc {
+                        rep.tally("outcome:err_between_nd_readings");
+                    }
+                    if strict_doc && want("C05") && !is_enum {
                         rep.fail(&format!("C05|reject_valid|{}|{}", sp.name, cls), wit("content conforms to the documented format but is rejected", Value::Null));
                     }
                     line = "err".into();
